@@ -33,7 +33,7 @@ def run(ctx):
                  ("C16-R2", "collect / extend feed every pair to add()"), ("C16-R3", "join flavours fetch from the set's own mask and storage; consuming join removes")]:
         ctx.rule(r, t)
     for cfg in configs(ctx.tier):
-        facts = ctx.facts(cfg)
+        facts = ctx.xfacts(cfg)
         r1(ctx, facts)
         r2(ctx, facts)
         r3(ctx, facts)
@@ -80,8 +80,21 @@ def r1(ctx, facts):
 def r2(ctx, facts):
     bodies = [b for b in facts.bodies if base_ty(b.self_ty or "") == "changeset::ChangeSet" and b.trait_item in ("std::iter::FromIterator::from_iter", "std::iter::Extend::extend")]
     ctx.floor("C16-R2", "collector impls", len(bodies), 2)
+    ext = [b for b in bodies if b.trait_item.endswith("Extend::extend")]
     for b in bodies:
         nexts = [bb for bb, t in b.calls() if t["callee"].get("path") == "std::iter::Iterator::next"]
+        if not nexts and b.trait_item.endswith("from_iter") and ext:
+            # from_iter may hand its iterator to the set's own Extend impl (examined on its own): a fresh set, the iterator parameter, every path
+            dl = [bb for bb, t in b.real_calls() if any(x in ext or x.path == ext[0].path for x in facts.targets(t["callee"]))]
+            good = [bb for bb in dl if b.receiver_root(b.arg_origin(bb, 1)) == ("param", 1, ()) and
+                    b.call_of(b.arg_origin(bb, 0)) and b.call_of(b.arg_origin(bb, 0))[1].get("name") in ("new", "default")]
+            okd = bool(good) and b.must_pass(0, good)[0] and len({b.site(x) for x in dl}) == 1
+            ro = b.ret_origins()
+            okr = bool(ro) and all(r == b.arg_origin(good[0], 0) for r in ro) if good else False
+            ctx.ob("C16-R2", "%s consumes its iterator with a plain loop" % b.path, okd and okr, b.loc(),
+                   "" if okd and okr else "from_iter neither loops over its iterator nor hands it (once, on every path) to the set's Extend impl and returns that set "
+                   "(delegations %d, well-formed %d, returns the filled set: %s)" % (len(dl), len(good), okr))
+            continue
         others = [t["callee"]["name"] for bb, t in b.calls() if t["callee"].get("trait") == "std::iter::Iterator" and t["callee"].get("name") not in ("next",)]
         ok = bool(nexts) and not [o for o in others if o not in ("for_each", "size_hint")]
         ctx.ob("C16-R2", "%s consumes its iterator with a plain loop" % b.path, ok, b.loc(), "" if ok else "iterator consumers: next=%d others=%s" % (len(nexts), others))
@@ -121,15 +134,11 @@ def r3(ctx, facts):
         for tname, im in m.items():
             n += 1
             o, g = method_body(facts, im, "open"), method_body(facts, im, "get")
-            ok = False
-            for d in o.defs().get(0, []):
-                if d[0] == "stmt" and d[4]["k"] == "aggregate" and d[4].get("tuple") and len(d[4]["ops"]) == 2:
-                    mo = o.canon(o.operand_origin(d[4]["ops"][0]))
-                    vo = o.operand_origin(d[4]["ops"][1])
-                    vroots = {r for r in o.roots(vo) if r[0] == "param"}
-                    ok = mo == ("param", 1, ("mask",)) and vroots == {("param", 1, ("inner",))}
+            ms, vs = o.ret_origins(0), o.ret_origins(1)
+            ok = bool(ms) and all(o.canon(mo) == ("param", 1, ("mask",)) for mo in ms) and \
+                all({r for r in o.roots(vo) if r[0] == "param"} == {("param", 1, ("inner",))} for vo in vs)
             ctx.ob("C16-R3", "%s %s::open hands out the set's own mask and storage" % (st, tname), ok, o.loc(), "" if ok else "open() does not return (self.mask, self.inner)")
-            fetch = [(bb, t) for bb, t in g.calls() if t["args"] and len(t["args"]) >= 2]
+            fetch = [(bb, t) for bb, t in g.real_calls() if t["args"] and len(t["args"]) >= 2]
             names = {t["callee"].get("name") for bb, t in fetch}
             okg = bool(fetch) and all(g.arg_origin(bb, 1) == ("param", 2, ()) for bb, t in fetch) and \
                 (names == {"remove"} if consuming else names <= {"get", "get_mut", "shared_get_mut"})
